@@ -16,7 +16,7 @@ from hypothesis import strategies as st
 
 from ..core import Clause, Violation
 from ..ref import renderargs as M
-from ..ref.renderargs import NS, RA, ROOT, UNSET, Reject, Tree
+from ..ref.renderargs import NS, ROOT, UNSET, Reject, Tree
 
 META = {
     "level": "exploration",
@@ -24,7 +24,8 @@ META = {
         "Hypothesis-generated programs: a tree of 1-8 fresh render classes (depth <= 4, branching <= 3) "
         "with ArgsNamespace (1-3 fields, optional inheriting sub-namespace class) / DataNamespace classes "
         "on random subsets, then 10-25 operations (namespace ctor incl. bad calls, RenderArgs ctor with "
-        "init/None/namespaces, update both forms, convert, |, reflected |, unary +, to_render_args, "
+        "init/None/namespaces, update both forms, convert, |, reflected | (args | ns and direct __ror__), unary +, "
+        "to_render_args, "
         "[], in, iter, ==/hash against the whole pool, RenderData + field get/set/update, frozen-field "
         "writes, namespace-class definitions that must be rejected/accepted) interpreted in lock-step with "
         "vf.ref.renderargs; after each op all pool objects and all class defaults are re-verified. "
@@ -1143,7 +1144,7 @@ class World:
 
     # -- end of program ---------------------------------------------------------------------
     def finish(self):
-        self.opno, self.opdesc = len(self.args_pool), "final default sets"
+        self.opno, self.opdesc = self.opno + 1, "final default sets"
         tree = self.tree
         for c in range(ROOT, tree.n):
             self.opdesc = f"final RenderArgs({self.cname(c)})"
@@ -1183,7 +1184,14 @@ CLAUSES = [
         check_program,
         lambda: _programs(False),
         budget={"quick": 1500, "thorough": 60000},
-        floors={"has_mixed": 0.2, "has_rejection": 0.5, "args_levels>=2": 0.5, "op:or": 0.5, "op:args": 0.9},
+        floors={
+            # per-program classes (fractions of programs)
+            "has_mixed": 0.2, "has_rejection": 0.5, "args_levels>=2": 0.5, "depth:4": 0.1,
+            # per-op counts relative to the number of programs
+            "op:or": 0.5, "op:args": 0.9, "convert:up": 0.2, "convert:down": 0.05, "or:same_class_ns": 0.15,
+            "ror:same_class_ns": 0.05, "res_nondefault:convert_up": 0.01, "res_nondefault:convert_down": 0.01,
+            "result_is_existing_object": 0.2, "rej:args": 0.1, "contains:True": 0.05, "contains:False": 0.03,
+        },
         doc="op programs on a random class tree, lock-step with the reference model + whole-pool re-verification",
     ),
     Clause(
@@ -1191,7 +1199,7 @@ CLAUSES = [
         check_program,
         lambda: _programs(True),
         budget={"quick": 600, "thorough": 12000},
-        floors={"has_rejection": 0.7, "op:define": 1.5},
+        floors={"has_rejection": 0.7, "op:define": 1.5, **{f"def:{sc}": 0.08 for sc in DEF_SCENARIOS}},
         doc="namespace-class definition rules (rejections leave no residue) mixed with a few ordinary ops",
     ),
 ]
